@@ -52,7 +52,7 @@ theorem C03_src_layouts : (SrcTie.encoderLayoutOk && SrcTie.decoderLayoutOk) = t
 /-- **C03 about both sides as they read now.** `Src.encodeE` is what `to_packet` of the event's kind writes, read from
 `src/event/*.rs` on every run (fifteen kinds; only emitted when every `data.…` call, every struct field, the device
 address and the error flag are accounted for; the message encoder is the model's), `Src.decodeK` is `try_from_packet`
-translated statement by statement (fourteen kinds; data and message are the model's). For every well-formed event the
+translated statement by statement (fifteen kinds; the message decoder is the model's). For every well-formed event the
 translated decoder of its kind returns exactly that event from what the encoder wrote. -/
 theorem C03_src_roundtrip (pad : Pad) (e : Event) (h : e.WF) : Src.decodeK e.kind (Src.encodeE pad e) = .ok e :=
   Ross.src_roundtrip pad e h
